@@ -415,6 +415,8 @@ def c08_core():
         aims="skip_then_retry_until: retry p after each skip; give up when until matches or skip fails")
     add("skip_retry_emitting", rest_after(RecSkipRetry(Then(Validate(Just(0), 1), Just(1)), Any(), Just(2))), n=4, timeout=900,
         aims="only an error-free retry is accepted")
+    add("skip_retry_dirty_then_clean", rest_after(RecSkipRetry(Or(Tag(1, Validate(Just(0), 1)), Tag(2, Just(1))), Any(), Just(2))), n=3, timeout=900,
+        aims="a retry that succeeds WITH an emission is not accepted and must leave no trace; a later error-free retry is accepted: only the recovered error is reported")
     add("via_n4", rest_after(Sp(RecVia(Tag(1, Then(Just(0), Then(Just(1), Just(2)))), Sp(To(Then(Any(), Any()), 0xFB))))), n=4, tier=T, timeout=1200)
     add("skip_until_n5", rest_after(Sp(RecSkipUntil(Tag(1, Then(Just(0), Just(1))), Any(), Just(2)))), n=5, tier=T, timeout=2400)
     return s
